@@ -12,7 +12,7 @@ SHARDS = {"quick": 8, "thorough": 16}
 TIME_CAP = {"quick": 70, "thorough": 900}
 REQUIRED = ["schemas_generated", "meta_schema_checks", "refs_resolved", "extraction_set_checks_all_refs_false", "extraction_set_checks_all_refs_true",
             "definitions_schema_checks", "recursive_programs", "shared_named_type_programs", "type_name_override_programs", "name_collision_programs",
-            "custom_ref_factory_checks", "cycle_checks", "serialization_schemas", "deserialization_schemas"]
+            "custom_ref_factory_checks", "cycle_checks", "conversion_schema_checks", "multi_entry_definitions_checks", "multi_entry_collision_checks", "serialization_schemas", "deserialization_schemas"]
 RULE = ("C01 program space + std types + dataclasses with type_name overrides (string / None), shared named types (used 1, 2, 3 times), (mutually) recursive classes "
         "x {deserialization, serialization}_schema x 5 versions x all_refs in {default, True, False} x ref_factory in {default, custom} x with_schema; plus programs with two distinct "
         "classes sharing one type name. A case = (type signature, entry point, version, all_refs, ref_factory); distinct by hash; non-trivial when the schema contains a $ref or a $defs.")
@@ -43,9 +43,10 @@ def type_name_of(n):
     return None
 
 
-def use_counts(t, objects, side):
-    """walk stopping at an already seen named type (the documented notion of 'used more than once')"""
-    counts = {}
+def use_counts(t, objects, side, counts=None):
+    """walk stopping at an already seen named type (the documented notion of 'used more than once');
+    `counts` may be shared between several entry types"""
+    counts = {} if counts is None else counts
 
     def visit(n):
         if isinstance(n, Ref):
@@ -275,8 +276,138 @@ def check_collision(env, n):
             env.case("collision", fn.__name__, src)
             if o.kind == "ok":
                 env.violation({"kind": "name-collision-not-refused", "entry": fn.__name__}, {"program": src, "schema": json.loads(json.dumps(o.value, default=str))})
+        # the two colliding classes reached from two different entry types
+        for all_refs in (True, False):
+            for side in ("deserialization", "serialization"):
+                o = harness.call(definitions_schema, **{side: [getattr(mod, f"A{n}"), rng.choice([getattr(mod, f"B{n}"), __import__("typing").List[getattr(mod, f"B{n}")]])]}, all_refs=all_refs)
+                env.count("multi_entry_collision_checks")
+                if o.kind == "ok":
+                    env.violation({"kind": "name-collision-not-refused", "entry": "definitions_schema(two entries)"}, {"program": src, "schema": json.loads(json.dumps(o.value, default=str))})
     finally:
         sys.modules.pop(name, None)
+
+
+CONV = """
+@dataclass
+class Money{n}:
+    amount: int
+    currency: str = "EUR"
+
+@dataclass
+class Wallet{n}:
+    owner: str
+
+class Price{n}:
+    def __init__(self, cents):
+        self.cents = cents
+
+def price_to_money{n}(p: Price{n}) -> Money{n}:
+    return Money{n}(p.cents)
+
+def money_to_price{n}(m: Money{n}) -> Price{n}:
+    return Price{n}(m.amount)
+
+{registered}
+@dataclass
+class Holder{n}:
+    w: Wallet{n}
+    w2: Optional[Wallet{n}] = None
+
+T = {T}
+"""
+
+
+def check_conversions(env, n):
+    """conversions changing the referenced named type: entry-point (dynamic) and registered conversions"""
+    from apischema.json_schema import JsonSchemaVersion, definitions_schema, deserialization_schema, serialization_schema
+    from vf import jsonschema_o as jo
+    from vf.spec import PRELUDE
+    import sys, types
+
+    rng = env.rng
+    harness.reset_all()
+    name = f"vfconv_{env.shard}_{n}"
+    mod = types.ModuleType(name)
+    sys.modules[name] = mod
+    registered = rng.random() < 0.5
+    shape = rng.choice(["List[Price{n}]", "Dict[str, Price{n}]", "Tuple[Price{n}, Price{n}]", "Tuple[Optional[Price{n}], Holder{n}]", "List[Tuple[Price{n}, Wallet{n}]]"])
+    reg = f"serializer(price_to_money{n})\ndeserializer(money_to_price{n})\n" if registered else ""
+    src = "from apischema import serializer, deserializer\n" + CONV.format(n=n, registered=reg, T=shape.format(n=n))
+    try:
+        exec(compile(PRELUDE + src, f"<{name}>", "exec"), mod.__dict__)
+        for side, fn, conv in (("serialization", serialization_schema, getattr(mod, f"price_to_money{n}")), ("deserialization", deserialization_schema, getattr(mod, f"money_to_price{n}"))):
+            for vname in ("DRAFT_2020_12", "DRAFT_7", "OPEN_API_3_1"):
+                for all_refs in (None, True, False):
+                    kw = {"version": getattr(JsonSchemaVersion, vname)}
+                    if all_refs is not None:
+                        kw["all_refs"] = all_refs
+                    if not registered:
+                        kw["conversion"] = conv
+                    o = harness.call(fn, mod.T, **kw)
+                    env.count("conversion_schema_checks")
+                    env.case("conv", shape, side, vname, all_refs, registered)
+                    wit = {"program": src, "entry": side + "_schema", "version": vname, "all_refs": all_refs, "registered": registered}
+                    if o.kind != "ok":
+                        env.violation({"kind": "generation-failed", "family": "conversion", "exc": o.exc, "site": o.site}, {**wit, "outcome": o.brief()})
+                        continue
+                    doc = json.loads(json.dumps(o.value))
+                    entry = [mod.T] if registered else [(mod.T, conv)]
+                    dkw = {k: v for k, v in kw.items() if k != "conversion"}
+                    od = harness.call(definitions_schema, **{side: entry}, **dkw)
+                    if od.kind != "ok":
+                        env.violation({"kind": "definitions_schema-failed", "family": "conversion", "exc": od.exc, "site": od.site}, {**wit, "outcome": od.brief()})
+                        continue
+                    ext = json.loads(json.dumps(od.value))
+                    defs = local_defs(doc, vname)
+                    pool = defs if defs is not None else ext
+                    for _, ref in jo.refs_of(doc):
+                        nm = ref[len(PREFIX[vname]):]
+                        if not ref.startswith(PREFIX[vname]) or nm not in (pool or {}):
+                            env.violation({"kind": "dangling-ref", "family": "conversion", "version": vname}, {**wit, "ref": ref, "schema": doc, "definitions": sorted(pool or {})})
+                    if defs is not None and defs != ext:
+                        env.violation({"kind": "definitions_schema-differs-from-inline-defs", "family": "conversion", "version": vname}, {**wit, "inline": defs, "definitions_schema": ext})
+    finally:
+        sys.modules.pop(name, None)
+        if registered:
+            from apischema.conversions import reset_deserializers, reset_serializer
+            for c in ("Price", "Money"):
+                cls = getattr(mod, f"{c}{n}", None)
+                if cls is not None:
+                    try:
+                        reset_deserializers(cls)
+                    except Exception:
+                        pass
+                    try:
+                        reset_serializer(cls)
+                    except Exception:
+                        pass
+            harness.reset_all()
+
+
+def check_multi_entry(env, prog, label):
+    """definitions_schema over several entry types: use counts accumulate over the entries"""
+    from apischema.json_schema import definitions_schema
+    from typing import List
+
+    rng = env.rng
+    t = prog.t
+    for side in ("deserialization", "serialization"):
+        counts = {}
+        for _ in range(2):  # the same type given twice: every named type reachable is then used more than once or met again
+            c2 = use_counts(t, prog.objects, side, counts)
+        entries = [prog.T, prog.T]
+        for all_refs in (False, True):
+            o = harness.call(definitions_schema, **{side: entries}, all_refs=all_refs)
+            env.count("multi_entry_definitions_checks")
+            env.case("multi-entry", t.sig(), side, all_refs)
+            wit = {"program": prog.source, "label": label, "entry": f"definitions_schema({side}=[T, T])", "all_refs": all_refs}
+            if o.kind != "ok":
+                env.violation({"kind": "definitions_schema-failed", "family": "multi-entry", "exc": o.exc, "site": o.site}, {**wit, "outcome": o.brief()})
+                continue
+            want = set(counts) if all_refs else {n for n, c in counts.items() if c > 1}
+            if set(o.value) != want:
+                env.violation({"kind": "extraction-set", "family": "multi-entry", "all_refs": all_refs, "missing": len(want - set(o.value)) > 0, "unexpected": len(set(o.value) - want) > 0},
+                              {**wit, "emitted": sorted(o.value), "expected": sorted(want), "use_counts": counts})
 
 
 def run(env):
@@ -298,12 +429,16 @@ def run(env):
             continue
         try:
             check_program(env, prog, tags, f"random#{env.shard}.{j}")
+            if rng.random() < 0.3:
+                check_multi_entry(env, prog, f"random#{env.shard}.{j}")
             if len(env.samples) < 3 and rng.random() < 0.03:
                 env.sample({"type": t.ann(), "sig": t.sig(), "tags": sorted(tags)})
         finally:
             prog.unload()
     for j in range(env.n(24, 200)):
         check_collision(env, j)
+    for j in range(env.n(24, 200)):
+        check_conversions(env, j)
 
 
 def finish_coverage(cov, counters, tier):
